@@ -37,9 +37,11 @@ From OV Require Import Proofs.RoundSum.
      dot at ACR       Vector::dot does NOT conjugate (functions.rs:38-46): it is the bilinear sum, not an inner product
                       (cdot_is_bilinear_not_hermitian: dot [i] [i] = -1).  The true Cauchy-Schwarz inequality for it:
                       |sum u_i v_i| <= sqrt (sum |u_i|^2) * sqrt (sum |v_i|^2).
-   Not proved: any of these "up to rounding" over Complex<f64> (searched on every run, kind vec.cnormlaws, 1e-12 slack).
+     at Complex<f64>  (IEEE binary64 through Flocq) "exact on exactly-representable data": on Gaussian integers of integer modulus
+                      (a^2 + b^2 = m^2 < 2^53, e.g. 3+4i) nothing rounds: norm_inf returns exactly max m_i, norm_1 exactly (sum m_i, +0).
+   Not proved: the laws "up to rounding" over Complex<f64> on general data (searched on every run, kind vec.cnormlaws, 1e-12 slack).
    ====================================================================================================== *)
-From OV Require Proofs.ComplexR Proofs.VectorCx2 Proofs.VectorCx2Q gen.SrcVecCmplx.
+From OV Require Proofs.ComplexR Proofs.VectorCx2 Proofs.VectorCx2Q Proofs.VectorCx2F gen.SrcVecCmplx.
 
 Theorem instances_agree : VectorR.AR = ComplexR.AR /\ VectorR.SAR = ComplexR.SAR.
 Proof. exact VectorCx2.instances_agree_lemma. Qed.
@@ -192,6 +194,34 @@ Check cdot_is_bilinear_not_hermitian :
 Print Assumptions cdot_is_bilinear_not_hermitian.
 Print Assumptions audit_separator.
 
+(* the raw loop (combine stops at the shorter vector) satisfies the same inequality without the size guard *)
+Theorem cdot_raw_cauchy_schwarz : forall (u v : list (cplx ComplexR.AR)),
+  (@Model.Complex.cabs ComplexR.SAR (dot_raw (A := ComplexR.ACR) u v)
+   <= R_sqrt.sqrt (VectorR.Rsum (map (fun z : cplx ComplexR.AR => re z * re z + im z * im z) u)) *
+      R_sqrt.sqrt (VectorR.Rsum (map (fun z : cplx ComplexR.AR => re z * re z + im z * im z) v)))%R.
+Proof. intros u v. exact (VectorCx2.cdot_raw_cauchy_schwarz_lemma u v). Qed.
+Check cdot_raw_cauchy_schwarz : forall (u v : list (cplx ComplexR.AR)),
+  (@Model.Complex.cabs ComplexR.SAR (dot_raw (A := ComplexR.ACR) u v)
+   <= R_sqrt.sqrt (VectorR.Rsum (map (fun z : cplx ComplexR.AR => re z * re z + im z * im z) u)) *
+      R_sqrt.sqrt (VectorR.Rsum (map (fun z : cplx ComplexR.AR => re z * re z + im z * im z) v)))%R.
+Print Assumptions cdot_raw_cauchy_schwarz.
+Print Assumptions audit_separator.
+
+(* the complex norms are the REAL norms (the functions of the blocks above, at VectorR.SAR) of the vector of moduli *)
+Theorem cnorm_via_moduli : forall (v : list (cplx ComplexR.AR)),
+  cnorm_inf (F := ComplexR.SAR) v
+  = Model.Vector.norm_inf (F := VectorR.SAR) Rabs (map (@Model.Complex.cabs ComplexR.SAR) v) /\
+  norm_1 (A := ComplexR.ACR) v
+  = mkC (A := ComplexR.AR) (norm_1 (A := VectorR.AR) (map (@Model.Complex.cabs ComplexR.SAR) v)) 0%R.
+Proof. intros v. exact (VectorCx2.cnorm_via_moduli_lemma v). Qed.
+Check cnorm_via_moduli : forall (v : list (cplx ComplexR.AR)),
+  cnorm_inf (F := ComplexR.SAR) v
+  = Model.Vector.norm_inf (F := VectorR.SAR) Rabs (map (@Model.Complex.cabs ComplexR.SAR) v) /\
+  norm_1 (A := ComplexR.ACR) v
+  = mkC (A := ComplexR.AR) (norm_1 (A := VectorR.AR) (map (@Model.Complex.cabs ComplexR.SAR) v)) 0%R.
+Print Assumptions cnorm_via_moduli.
+Print Assumptions audit_separator.
+
 (* non-vacuity of the hypotheses of the complex laws: a concrete sum of equal-length complex vectors is defined, norm_inf of a
    non-empty complex vector is a value (5 = |3 + 4i|), and the dot product of equal-length vectors is a value *)
 Example cnorm_laws_nonvacuous :
@@ -254,3 +284,36 @@ Example qnorm_laws_nonvacuous :
   vadd (A := AQ) [q 1 2; q (-3) 1] [q 1 1; q 1 1] = Ok [@Base.Arith.add AQ (q 1 2) (q 1 1); @Base.Arith.add AQ (q (-3) 1) (q 1 1)] /\
   [q 1 2; q (-3) 1] <> [].
 Proof. split; [reflexivity|discriminate]. Qed.
+
+(* ---------------------------------------------------------------- Complex<f64>: exact on exactly-representable data (Flocq) *)
+(* [VectorCx2F.GaussExact z m]: the two components of z hold integers a, b (finite floats of these values) with
+   a*a + b*b = m*m, 0 <= m, m*m < 2^53 -- a Gaussian integer of integer modulus m.  [ExactW x z]: x is finite, of value z. *)
+Theorem cnorm_inf_exact_float : forall (z0 : cplx AF) (t : list (cplx AF)) (m0 : Z) (ms : list Z),
+  VectorCx2F.GaussExact z0 m0 -> Forall2 VectorCx2F.GaussExact t ms ->
+  exists r, cnorm_inf (F := SAF) (z0 :: t) = Ok r /\ ParDotFloat.ExactW r (VectorCx2F.zmaxl m0 ms) /\
+            In (VectorCx2F.zmaxl m0 ms) (m0 :: ms) /\ (forall m, In m (m0 :: ms) -> (m <= VectorCx2F.zmaxl m0 ms)%Z).
+Proof.
+  intros z0 t m0 ms H0 Ht. destruct (VectorCx2F.cnorm_inf_exact_float_lemma z0 t m0 ms H0 Ht) as (r & E & X).
+  exists r. exact (Logic.conj E (Logic.conj X (VectorCx2F.zmaxl_spec m0 ms))).
+Qed.
+Check cnorm_inf_exact_float : forall (z0 : cplx AF) (t : list (cplx AF)) (m0 : Z) (ms : list Z),
+  VectorCx2F.GaussExact z0 m0 -> Forall2 VectorCx2F.GaussExact t ms ->
+  exists r, cnorm_inf (F := SAF) (z0 :: t) = Ok r /\ ParDotFloat.ExactW r (VectorCx2F.zmaxl m0 ms) /\
+            In (VectorCx2F.zmaxl m0 ms) (m0 :: ms) /\ (forall m, In m (m0 :: ms) -> (m <= VectorCx2F.zmaxl m0 ms)%Z).
+Print Assumptions cnorm_inf_exact_float.
+Print Assumptions audit_separator.
+
+Theorem cnorm1_exact_float : forall (v : list (cplx AF)) (ms : list Z),
+  Forall2 VectorCx2F.GaussExact v ms -> (VectorFloat.zsuml ms < 2 ^ 53)%Z ->
+  ParDotFloat.ExactW (re (norm_1 (A := ACF) v)) (VectorFloat.zsuml ms) /\ im (norm_1 (A := ACF) v) = 0%float.
+Proof. intros v ms Hv Hb. exact (VectorCx2F.cnorm1_exact_float_lemma v ms Hv Hb). Qed.
+Check cnorm1_exact_float : forall (v : list (cplx AF)) (ms : list Z),
+  Forall2 VectorCx2F.GaussExact v ms -> (VectorFloat.zsuml ms < 2 ^ 53)%Z ->
+  ParDotFloat.ExactW (re (norm_1 (A := ACF) v)) (VectorFloat.zsuml ms) /\ im (norm_1 (A := ACF) v) = 0%float.
+Print Assumptions cnorm1_exact_float.
+Print Assumptions audit_separator.
+
+(* non-vacuity: [3+4i; -5; -5+12i] are Gaussian integers of moduli 5, 5, 13; their sum 23 is below 2^53 *)
+Example cnorm_exact_float_nonvacuous :
+  Forall2 VectorCx2F.GaussExact VectorCx2F.exc_v VectorCx2F.exc_m /\ (VectorFloat.zsuml VectorCx2F.exc_m < 2 ^ 53)%Z.
+Proof. split; [exact VectorCx2F.exc_exact|]. vm_compute. reflexivity. Qed.
